@@ -47,6 +47,9 @@ func OhpJourneys(e *Env, r *rand.Rand, n int, out *vt.Writer, emit emitFn) {
 		now := time.Now()
 		a := &APkt{Kind: "ohp", Via: 0, Src: "L", Dst: k.Nbr, Fault: "none", L4: "udp", Seg: []int{2},
 			Infos: []AInfo{{Cons: true}}, Hops: []AHop{{Eg: k.ID, Vp: true}, {}}}
+		if j%3 != 0 { // the sender may leave anything in the second hop field
+			a.Hops[1] = AHop{In: r.Intn(3) * 9, Eg: 1 + r.Intn(8), Ia: r.Intn(2) == 0, Ea: r.Intn(2) == 0}
+		}
 		raw, err := e.Build(a, BuildOpts{Payload: 24, Rng: r}, now)
 		if err != nil {
 			vt.Fatal("build: %v", err)
@@ -69,7 +72,7 @@ func OhpJourneys(e *Env, r *rand.Rand, n int, out *vt.Writer, emit emitFn) {
 				w, _ := ParseWire(s2.Out)
 				h2, inf := w.Hops[1], w.Infos[0]
 				m := FullHopMAC(ne.Key, inf.SegID, inf.TS, h2.Exp, h2.In, h2.Eg)
-				ev["second"] = [6]byte(m[:6]) == h2.Mac && int(h2.In) == far && h2.Eg == 0
+				ev["second"] = [6]byte(m[:6]) == h2.Mac && int(h2.In) == far && h2.Eg == 0 && !h2.IA && !h2.EA
 				// the reply over the reversed path
 				if rraw := reverseOhp(s2.Out); rraw != nil {
 					r1, ok := ne.Run(rraw, 0, now)
